@@ -130,7 +130,7 @@ struct Exec {
   int pending_forge = 0;         // forged links the allocator has not reached yet (their EFAULT may arrive in a later op)
   bool stop_after_this_op = false;
   bool walk_unreliable = false; // after a detected free-list corruption the remainder of that list is dropped by design: heap walks are no longer exact
-  bool known_f14_off = false;
+  bool known_f14_off = false; bool known_f19_off = false;
   bool known_f12_off = false;
   bool known_f5_off = false;    // replay of the F5 demonstration: do not exclude
   uintptr_t exempt_lo = 0, exempt_hi = 0;   // block being released inside a realloc call (purge police)
